@@ -37,6 +37,25 @@ def idem_special(rng):
     else:
         body = '<g opacity="%s"><g opacity="%s">%s%s</g>%s</g>' % (a, b, gone, keep, gone)
     drop = False
+    k2 = rng.random()
+    if k2 < 0.15:
+        # an invisible group (or root) around a translucent group that is rightly kept until the zero arrives
+        inner = '<g opacity="0.5"><path fill="red" d="M10,10 L60,10 L60,50 Z"/><path fill="blue" d="M30,20 L80,20 L80,70 Z"/></g>'
+        z = rng.choice(["0", "-0.3", "0.0"])
+        if rng.random() < 0.5:
+            body = '<g opacity="%s">%s<path d="M1,1 L9,1 L9,9 Z"/></g><path d="M50,50 L90,50 L90,90 Z"/>' % (z, inner)
+            src = '<svg xmlns="http://www.w3.org/2000/svg" viewBox="0 0 100 100">%s</svg>' % body
+        else:
+            src = '<svg xmlns="http://www.w3.org/2000/svg" viewBox="0 0 100 100" opacity="%s">%s<path d="M50,50 L90,50 L90,90 Z"/></svg>' % (z, inner)
+        return {"src": src, "ndigits": rng.choice([1, 3]), "allow_text": False, "drop_unsupported": False, "kind": "idem-special"}
+    if k2 < 0.3:
+        # gradient parameters that reach their default value only through rounding
+        extra = rng.choice(['cx="0.5" cy="0.5" r="0.5" fx="0.5000002"', 'cx="0.4" cy="0.5" r="0.5" fy="0.50000004"',
+                            'cx="0.5" cy="0.5" r="0.5" fr="0.0000003"', 'cx="0.5" cy="0.5" r="0.4999999"'])
+        src = ('<svg xmlns="http://www.w3.org/2000/svg" viewBox="0 0 100 100"><defs><radialGradient id="g" %s><stop offset="0" stop-color="red"/>'
+               '<stop offset="1" stop-color="blue"/></radialGradient></defs><rect x="5" y="5" width="60" height="40" fill="url(#g)"%s/></svg>'
+               % (extra, rng.choice(["", "", "", ' transform="translate(3 4)"'])))
+        return {"src": src, "ndigits": rng.choice([1, 3, 5]), "allow_text": False, "drop_unsupported": False, "kind": "idem-special"}
     if rng.random() < 0.25:
         # a group that only the run after the drop_unsupported gate flattens, pushing down an opacity that rounds to 0
         o1, o2 = rng.choice([("0.02", "0.02"), ("0.01", "0.04"), ("0.2", "0.002")])
@@ -54,7 +73,7 @@ def correspondence(ctx):
     dis = []
     items = []
     for _ in range(n):
-        c = idem_special(rng) if rng.random() < 0.12 else c01.gen_case(rng)
+        c = idem_special(rng) if rng.random() < 0.2 else c01.gen_case(rng)
         c["allow_text"] = False
         # dropping unsupported elements is part of the conversion too: keep the option a third of the time
         c["drop_unsupported"] = bool(c.get("drop_unsupported")) and (c.get("kind") == "idem-special" or rng.random() < 0.7)
